@@ -12,7 +12,7 @@ from .. import sp
 ID = "C11"
 META = {
     "technique": "runtime monitoring: differential monitor of parse_string's resolved field values, @string blocks and resolution metadata against a 10-line reference model over enumerated value shapes x definition placements",
-    "level_text": "Every document of one entry with 1-2 fields over the 17 stated value shapes x every list of 0-2 definitions x every before/after placement is parsed by the real entry point and compared with the model (first definition wins, bare case-sensitive identifiers only, enclosed/concatenated/undefined values keep their own content, strings unchanged, metadata lists exactly the resolved keys in order); random larger documents add duplicated and interleaved definitions. Field names include the reserved-looking ID / ENTRYTYPE (entries whose key and type are macro names).",
+    "level_text": "Every document of one entry with 1-2 fields over the 17 stated value shapes x every list of 0-2 definitions x every before/after placement is parsed by the real entry point and compared with the model (first definition wins, bare case-sensitive identifiers only, enclosed/concatenated/undefined values keep their own content, strings unchanged, metadata lists exactly the resolved keys in order); random larger documents add duplicated and interleaved definitions. Field names include the reserved-looking ID / ENTRYTYPE (entries whose key and type are macro names). Thirteen definitions whose content is itself enclosed, numeric or padded ({{2019}}, \"{12}\", { 7 }, {{jan}}, ...) are referenced from twelve field names that other middlewares treat specially (year, month, volume, pages, author, url, ...).",
     "level_note": "content = value with one positional enclosing layer removed (the reading of C10)",
 }
 RULE = ("case = document built from value shapes {bare defined key, bare undefined key, '{key}', '\"key\"', other case, 'key # key', number} "
@@ -22,6 +22,8 @@ ASSUMPTIONS = ["unique entry keys and unique field keys per entry (collisions ar
 MIN = {"field_value_model": (30000, 300000), "metadata_model": (10000, 100000), "strings_unchanged": (10000, 100000)}
 
 DEFS = [("s", "{X}"), ("s", '"Y y"'), ("S", "{Z}"), ("t", "s"), ("t", "{a} # {b}"), ("s", "12"), ("s", "t"), ("u", "u"), ("st", "{W}"), ("k-2", "{P}"), ("a:b.c+d", "{Q}"), ("jan", '"Januar"')]
+DEFS_X = [("s", "{{2019}}"), ("s", '"{12}"'), ("t", "{ 7 }"), ("s", "{{Nature}}"), ("s", '{"3"}'), ("t", "{{{1}}}"), ("s", '" 2020"'), ("s", "{jan}"), ("t", "{{jan}}"), ("s", "{12--15}"),
+          ("s", "{{Doe, J. and Roe, K.}}"), ("s", "{http://a.b/c_d}"), ("s", "{{\\'e}}")]
 NAMES = ["s", "S", "t", "u", "st", "k-2", "a:b.c+d", "jan"]
 
 
@@ -70,6 +72,17 @@ def cases(tier, seed, shard, nshards):
                     if idx % nshards == shard:
                         yield {"k": "enum", "text": "@string{%s = %s}\n@%s{%s, %s = %s, f0 = %s}\n" % (d[0], d[1], et, ek, fname, v, v)}
                     idx += 1
+    # definitions whose content is itself enclosed / numeric / padded, referenced from fields that other middlewares treat
+    # specially by NAME (seed C11-n: the enclosing removal stripped every layer around digits in year, volume, ... but one layer
+    # in the @string): the field must hold exactly what the @string block holds
+    for d in DEFS_X:
+        for fname in ("year", "month", "volume", "number", "pages", "edition", "chapter", "issue", "note", "author", "url", "Year"):
+            for v in (d[0], "{%s}" % d[0], "%s # %s" % (d[0], d[0])):
+                for order in (0, 1):
+                    if idx % nshards == shard:
+                        de, en = "@string{%s = %s}" % d, "@misc{e1, %s = %s, f0 = %s}" % (fname, v, d[0])
+                        yield {"k": "enum", "text": (de + "\n" + en if order else en + "\n" + de) + "\n"}
+                    idx += 1
     r = rng_for(seed, shard, "c11")
     n = tier_pick(tier, 32000, 2500000) // nshards
     ws = ["", " ", "\n ", "  "]
@@ -78,12 +91,12 @@ def cases(tier, seed, shard, nshards):
         ne = r.randint(1, 4)
         blocks = []
         for _ in range(nd):
-            k, v = r.choice(DEFS)
+            k, v = r.choice(DEFS + DEFS_X)
             blocks.append("@%s{%s%s%s=%s%s%s}" % (r.choice(["string", "String", "STRING"]), r.choice(ws), k, r.choice(ws), r.choice(ws), v, r.choice(ws)))
         for e in range(ne):
             nf = r.randint(1, 4)
             # (reserved-looking field names too: the v1-compatibility accessor entry[key] special-cases them; seed C11-k)
-            fn = r.sample(["f0", "f1", "f2", "month", "Month", "year", "author", "crossref", "ID", "ENTRYTYPE", "key", "type", "id"], nf)
+            fn = r.sample(["f0", "f1", "f2", "month", "Month", "year", "volume", "pages", "number", "author", "crossref", "ID", "ENTRYTYPE", "key", "type", "id"], nf)
             fs = ",".join("%s%s%s=%s%s%s" % (r.choice(ws), fn[j], r.choice(ws), r.choice(ws), r.choice(vs), r.choice(ws)) for j in range(nf))
             blocks.append("@article{%s,%s%s}" % (["s", "k1", "t", "st"][e], fs, r.choice(["", ",", " , "])))
         if r.random() < .3:
